@@ -61,6 +61,9 @@ def run(tier: str, seed: int) -> int:
     jobs += [(seed, 3 * 10 ** 6 + i, "big") for i in range(8 if tier == "quick" else 80)]
     for t in (23, 24, 255, 256, 65535, 65536):
         jobs += [(seed, 4 * 10 ** 6 + 10 * t + i, f"len:{t}") for i in range(3 if tier == "quick" else 20)]
+    # ... and so that the *wrapped* manifest (head included) is an exact multiple of 64 KiB: a hash fed block by block meets an empty last block (C01-s)
+    for t in (65533, 131067):
+        jobs += [(seed, 5 * 10 ** 6 + 10 * t + i, f"len:{t}") for i in range(2 if tier == "quick" else 6)]
     outs = common.pmap(work, jobs, chunk=8)
     for job, o in zip(jobs, outs):
         if o is None:
@@ -74,7 +77,7 @@ def run(tier: str, seed: int) -> int:
         for f in o["feats"]:
             if f.endswith(":severed") or f.endswith(":digest-only") or f.endswith(":inline") or f.startswith("dependency") or f.startswith("digest:"):
                 res.count("feature:" + f)
-        if o["mlen"] in (23, 24, 255, 256, 65535, 65536):
+        if o["mlen"] in (23, 24, 255, 256, 65535, 65536, 65533, 131067):
             res.count(f"manifest_len:{o['mlen']}")
         if not o["agree"]:
             res.mismatches.append({"op": "suit.create", "seed": job[0], "index": job[1], "kind": job[2], "impl": _short(o["impl"]), "model": _short(o["model"])})
